@@ -55,18 +55,25 @@ type node struct {
 	expect []rtmpref.Msg          // messages completed so far, in completion order
 	infl   map[uint32]rtmpref.Msg // messages in flight per chunk stream
 	nmsg   int
+	// expStart[i] is the index (in moves) of the chunk that started expect[i]; inflStart the same for messages in flight
+	expStart  []int
+	inflStart map[uint32]int
 }
 
 func (n *node) clone() *node {
-	c := &node{ck: n.ck.Clone(), moves: append([]Move{}, n.moves...), wire: append([]byte{}, n.wire...), expect: append([]rtmpref.Msg{}, n.expect...), infl: map[uint32]rtmpref.Msg{}, nmsg: n.nmsg}
+	c := &node{ck: n.ck.Clone(), moves: append([]Move{}, n.moves...), wire: append([]byte{}, n.wire...), expect: append([]rtmpref.Msg{}, n.expect...), infl: map[uint32]rtmpref.Msg{}, nmsg: n.nmsg,
+		expStart: append([]int{}, n.expStart...), inflStart: map[uint32]int{}}
 	for k, v := range n.infl {
 		c.infl[k] = v
+	}
+	for k, v := range n.inflStart {
+		c.inflStart[k] = v
 	}
 	return c
 }
 
 func newNode() *node {
-	return &node{ck: rtmpref.NewChunker(), infl: map[uint32]rtmpref.Msg{}}
+	return &node{ck: rtmpref.NewChunker(), infl: map[uint32]rtmpref.Msg{}, inflStart: map[uint32]int{}}
 }
 
 // apply performs a legal move (start/cont) and returns the child node.
@@ -98,6 +105,7 @@ func (n *node) apply(m Move) *node {
 		c.nmsg++
 		ch = c.ck.Start(msg, m.Fmt, m.Form)
 		c.infl[m.CS] = msg
+		c.inflStart[m.CS] = len(c.moves) - 1
 	case "cont":
 		ch = c.ck.Continue(m.CS, m.Form)
 	}
@@ -106,6 +114,8 @@ func (n *node) apply(m Move) *node {
 		msg := c.infl[m.CS]
 		delete(c.infl, m.CS)
 		c.expect = append(c.expect, msg)
+		c.expStart = append(c.expStart, c.inflStart[m.CS])
+		delete(c.inflStart, m.CS)
 		if msg.Type == 1 {
 			c.ck.ChunkSize = uint32(msg.Payload[0])<<24 | uint32(msg.Payload[1])<<16 | uint32(msg.Payload[2])<<8 | uint32(msg.Payload[3])
 		}
@@ -251,6 +261,23 @@ func (h *harness) evaluate(n *node, one bool) bool {
 	if pan != "" {
 		c.Violation("panic/"+strings.SplitN(pan, ":", 2)[0], "reader panicked: "+pan+"; "+desc(), cs)
 		return false
+	}
+	// clause "timestamps ... (reduced to 31 bits)": no returned timestamp may have bit 31 or above set,
+	// whatever reading of the extended-timestamp field the reader follows
+	for i, m := range msgs {
+		if m.Timestamp > 0x7fffffff {
+			feat, exp := "unexpected-message", ""
+			if i < len(n.expStart) {
+				feat = fmt.Sprintf("fmt%d-message-start", n.moves[n.expStart[i]].Fmt)
+				exp = fmt.Sprintf(" (chunk %d of the trace, %s; the specification gives timestamp %#x = %#x reduced to 31 bits)", n.expStart[i], n.moves[n.expStart[i]], n.expect[i].Timestamp, n.expect[i].Timestamp&0x7fffffff)
+			}
+			pre := ""
+			if one {
+				pre = "with 1-byte transport reads: "
+			}
+			c.Violation("timestamp-31bit/"+feat, fmt.Sprintf("%smessage %d%s is returned with timestamp %#x, which is not reduced to 31 bits; %s", pre, i, exp, m.Timestamp, desc()), cs)
+			return false
+		}
 	}
 	bad := ""
 	for i, m := range msgs {
@@ -555,8 +582,8 @@ func genL(n *node) []Move {
 }
 
 func run(c *hl.Ctx) {
-	c.Rule("E2: depth-first enumeration of every trace of <= N chunks of the specification chunker (all legal header choices), family by family: T = header type {0,1,2,3} x timestamp/delta class (8 values around 0, 0xFFFFFF, 2^31, 2^32-1) on one chunk stream (cs 3 and cs 2); H = header-field inheritance (type, length, stream id) with fmt 1/2/3 where legal; B = chunk stream ids {2,3,35,63,64,65,67,319,320,321,65599} (pairs that alias under a dropped id bit or a dropped header byte) x every basic-header form; I = chunk-level interleaving of 2 chunk streams + Set Chunk Size {2,128,4096} on cs 2; L = length classes {1,c-1,c,c+1,2c,2c+1} x chunk sizes {1,2,127,128,129,4096,65536}. Every trace prefix is fed to a fresh real Protocol (whole and 1-byte reads) and its ReadMessage sequence compared with the chunker's bookkeeping; at every node each illegal continuation (fmt 0 / changed length inside an unfinished message, fresh chunk stream with fmt 1/2/3, and the librtmp cs-2 fmt-1 form which must be accepted) is appended. state = abstract chunker state; transition = one chunk.")
-	c.Assume("timestamps compared after reduction to 31 bits", "type-1/2 headers inside an unfinished message and Abort messages are not generated", "the extended-timestamp field of a type-3 chunk repeats the value of the last type 0/1/2 header of its chunk stream")
+	c.Rule("E2: depth-first enumeration of every trace of <= N chunks of the specification chunker (all legal header choices), family by family: T = header type {0,1,2,3} x timestamp/delta class (8 values around 0, 0xFFFFFF, 2^31, 2^32-1) on one chunk stream (cs 3 and cs 2); H = header-field inheritance (type, length, stream id) with fmt 1/2/3 where legal; B = chunk stream ids {2,3,35,63,64,65,67,319,320,321,65599} (pairs that alias under a dropped id bit or a dropped header byte) x every basic-header form; I = chunk-level interleaving of 2 chunk streams + Set Chunk Size {2,128,4096} on cs 2; L = length classes {1,c-1,c,c+1,2c,2c+1} x chunk sizes {1,2,127,128,129,4096,65536}; W = timestamp accumulation over 1..4 (thorough 1..5) message starts on one chunk stream (cs 7): type 0 with timestamps {0, 1, 0xFFFFFE, 0xFFFFFF, 2^31-2*0xFFFFFE, 2^31-300, 2^31-2, 2^31-1, 2^31} x type 1 and type 2 with plain deltas {0, 1, 0x80, 0x100, 0xFFFFFE} and extended deltas {0xFFFFFF, 0x1000000, 2^31-300} x type 3 message start (delta re-added, repeatable), all messages of a trace single-chunk (1 byte) or multi-chunk (129 bytes = 2 chunks; thorough also 300 bytes = 3 chunks) with the type-3 continuation chunks in between, so that 0xFFFFFF and 2^31 are crossed by every header type after an extended and after a plain previous header (quick: <=4 starts, single-chunk - also with 1-byte reads - and 2-chunk; thorough: <=5 starts single-chunk with 1-byte reads, <=5 starts 2-chunk, <=4 starts 3-chunk). Every trace prefix is fed to a fresh real Protocol (whole and 1-byte reads) and its ReadMessage sequence compared with the chunker's bookkeeping (timestamps after reduction to 31 bits; a returned timestamp >= 2^31 is reported under timestamp-31bit/<header type of that message's first chunk>; a trace that uses an extended delta or a type-3 message start after an extended header and deviates is compared with the reference de-chunker in its documented extended-field-is-absolute reading: equal = the known finding decode/<features>, different = decode-other/<features>); at every node each illegal continuation (fmt 0 / changed length inside an unfinished message, fresh chunk stream with fmt 1/2/3, and the librtmp cs-2 fmt-1 form which must be accepted) is appended. state = abstract chunker state; transition = one chunk.")
+	c.Assume("timestamps compared after reduction to 31 bits", "type-1/2 headers inside an unfinished message and Abort messages are not generated", "the extended-timestamp field of a type-3 chunk repeats the value of the last type 0/1/2 header of its chunk stream", "a timestamp delta that carries the 32-bit timestamp past 2^31 or 2^32 is a legal forward step (RTMP timestamps roll over); only the 31-bit reduction of the result is compared")
 	h := &harness{c: c}
 	dT, dH, dB, dI, dL := 3, 3, 3, 5, 4
 	if c.Thorough() {
@@ -565,6 +592,7 @@ func run(c *hl.Ctx) {
 	c.Info("depths", map[string]int{"T": dT, "H": dH, "B": dB, "I": dI, "L": dL})
 	h.dfs(newNode(), dT, genT(3), true, true, 1)
 	h.dfs(newNode(), dT, genT(2), false, false, 1)
+	h.runW()
 	h.dfs(newNode(), dH, genH, false, true, 1)
 	h.dfs(newNode(), dB, genB, true, true, 1)
 	h.dfs(newNode(), dI, genI, true, true, 2)
